@@ -36,6 +36,7 @@ def t(params, **kw):
 # ---- C06 / C19: the 21 message forms
 forms = [
  ("acceptedkey", "VerifC06AcceptedKey", {"U": 6, "A": 6, "K": 6, "PID": 2}, {"U": 32, "A": 40, "K": 44, "PID": 5}),
+ ("acceptedkeytrailing", "VerifC06AcceptedKeyTrailing", {"U": 6, "A": 6, "K": 6, "J": 8, "PID": 2}, {"U": 16, "A": 16, "K": 20, "J": 16, "PID": 3}),
  ("acceptedcert", "VerifC06AcceptedCert", {"U": 8, "A": 8, "K": 8, "I": 16, "PID": 1, "PORT": 5, "T": 6, "SERIAL": 20, "SWEEP": 1, "FIX": 2}, {"U": 8, "A": 8, "K": 8, "I": 24, "PID": 3, "PORT": 5, "T": 6, "SERIAL": 20}),
  ("acceptedpw", "VerifC06AcceptedPassword", {"U": 8, "A": 8, "PID": 2}, {"U": 32, "A": 46, "PID": 5}),
  ("certinvalid", "VerifC06CertInvalid", {"R": 24}, {"R": 64}),
@@ -90,7 +91,7 @@ def trk(prop, pre, qp, tp, reach):
           trk_assume, trk_out, site_prefix=pre)
 trk("C01", "c01.", {"K": 5, "S": 2, "L": 2}, {"K": 6, "S": 3, "L": 2}, ["trk.emitted", "trk.flush-many", "trk.history-end"])
 trk("C02", "c02.", {"K": 5, "S": 2, "L": 2}, {"K": 6, "S": 3, "L": 2}, ["trk.emitted", "trk.flush-many", "trk.history-end"])
-trk("C04", "c04.", {"K": 4, "S": 2, "L": 1, "WILD": 1}, {"K": 5, "S": 2, "L": 1, "WILD": 1}, ["trk.emitted", "trk.emitted-after-end", "trk.history-end"])
+trk("C04", "c04.", {"K": 4, "S": 2, "L": 1, "WILD": 1}, {"K": 5, "S": 2, "L": 1, "WILD": 1}, ["trk.emitted", "trk.history-end"])
 
 # ---- C11: arbitrary lines
 kw = ["Accepted publickey", "Accepted password", "Certificate invalid", "Invalid user", "User ", "ROOT LOGIN REFUSED FROM",
@@ -99,7 +100,7 @@ kw = ["Accepted publickey", "Accepted password", "Certificate invalid", "Invalid
 def c11runs(NQ, NT, TQ, TT):
     runs = [run("arbitrary", SSHD, "VerifC11Arbitrary", q({"N": NQ}, ascii7=False), t({"N": NT}), reach=["c11.nothing"],
                 bounds="line: any bytes, 0..N; pid token: any bytes, 0..3")]
-    need = {4: 48, 9: 60}  # shortest tails that can still form a recognised message
+    need = {0: 56, 4: 48, 9: 60}  # tails long enough for a recognised message (for kw00: a second, complete message after the keyword)
     for i, k in enumerate(kw):
         runs.append(run("kw%02d" % i, SSHD, "VerifC11Keyword", q({"K": i, "T": max(TQ, need.get(i, 0))}, ascii7=False), t({"K": i, "T": max(TT, need.get(i, 0) + 8)}), reach=(["c11.event"] if i == 2 else ["c11.event", "c11.nothing"]),
                         bounds="keyword %r + any bytes 0..T; pid token any bytes 0..3" % k))
@@ -110,7 +111,7 @@ write("C11", c11runs(24, 48, 28, 56), c11_assume, ["lines longer than the bounds
 
 # ---- C05
 c05 = []
-for form, fname in ((0, "key"), (1, "cert"), (2, "password")):
+for form, fname in ((0, "key"), (1, "cert"), (2, "password"), (3, "key-trailing-text")):
     for mode, mname in ((0, "buffered"), (1, "receiver"), (2, "cancelled-before"), (3, "cancelled-concurrently")):
         qp = {"FORM": form, "MODE": mode, "U": 4, "A": 4, "K": 4, "I": 8, "PIDLEN": 3, "FIXLEN": 1}
         tp = {"FORM": form, "MODE": mode, "U": 6, "A": 6, "K": 6, "I": 12, "PIDLEN": 6, "FIXLEN": 1 if (form == 1 or mode in (1, 3)) else 0}
@@ -171,7 +172,7 @@ write("C19", c19runs,
 
 # ---- C09
 write("C09", [run("reuse", TRK, "VerifC09Reuse", {"params": {"K": 7}, "sym_map_order": True, "max_steps": 20000000}, {"params": {"K": 9}, "sym_map_order": True, "max_steps": 50000000},
-                  reach=["c09.second-login", "c09.second-generation-emitted"],
+                  reach=["c09.second-login", "c09.second-generation-emitted", "c09.record-held-after-disposal"],
                   bounds="two sessions opened by the same (symbolic) PID, three records each (LOGIN, one event, CRED_DISP) in order, each login line at any position, stray late records of the ended session; K operations; map iteration order is a decision")],
       ["the second sshd process (its LOGIN record and its login line) only appears after the first session has ended, as in the property's quantifier",
        "stubs: zap, uuid, time.Now"],
@@ -201,8 +202,9 @@ for c in (0, 1, 2):
                    bounds="audit ingester blocked handing a record to a full channel of capacity %d whose consumer has stopped" % c))
 c13.append(run("auditlog-through-pipe", AL, "VerifC13AuditLogIngest", {"params": {"CAP": 1}, "preempt": 2}, {"params": {"CAP": 2}}, reach=["c13.auditlog.ingest-returned"],
                bounds="audit ingester reading its FIFO with the downstream channel full"))
-c13.append(run("syslog-hand-off", SL, "VerifC13SyslogHandOff", {"params": {}, "preempt": 2}, {"params": {}}, reach=["c13.syslog.blocked", "c13.syslog.returned"],
-               bounds="sshd pipe ingester blocked handing a login to a correlator that never receives"))
+for form, fname in ((0, "password"), (1, "key"), (2, "cert"), (3, "key-trailing-text")):
+    c13.append(run("syslog-hand-off-" + fname, SL, "VerifC13SyslogHandOff", {"params": {"FORM": form}, "preempt": 2}, {"params": {"FORM": form}}, reach=["c13.syslog.blocked", "c13.syslog.returned"],
+                   bounds="sshd pipe ingester blocked handing a login (accepted %s line) to a correlator that never receives" % fname))
 c13.append(run("auditd-idle", AUD, "VerifC13AuditdIdle", {"params": {}, "preempt": 1}, {"params": {}, "preempt": 3}, reach=["c13.auditd.idle", "c13.auditd.returned"],
                bounds="audit processor idle in its select, both inputs silent"))
 write("C13", c13, ["cancellation is injected once every goroutine of the worker is blocked (the property quantifies over blocking states)",
@@ -232,4 +234,17 @@ write("C07", [run("sshd-framing", SL, "VerifC07SyslogFraming", q({"M": 6}, ascii
       ["sshd half is compositional: the ingester is shown to hand exactly (pid, message) to the processor; the processor is a function of that pair, so events and forwarded logins are those of the direct call (the processor is checked under C05/C06/C11/C17)",
        "audit half runs go-libaudit's real ParseLogLine / Reassembler from their source; FIFO model as in C12; rsyslog's '%msg%\\\\n' framing is an assumption of the model"],
       ["messages longer than M bytes", "the kernel FIFO and rsyslog themselves", "compound audit events (several records per event)"], site_prefix="c07.",
+      init_extra=["github.com/elastic/go-libaudit/v2/auparse", "github.com/elastic/go-libaudit/v2"])
+
+# ---- C15
+write("C15", [run("parse-lines", AUD, "VerifC15ParseLines", {"params": {"K": 3, "CLOCKSTEP": 0}, "preempt": 0}, {"params": {"K": 4, "CLOCKSTEP": 0}, "preempt": 1}, reach=["c15.parse.done", "c15.parse.malformed"],
+                  bounds="K lines, each a well-formed single-record event (symbolic distinct sequence number), the empty line, or a malformed line at any position"),
+              run("grouping", AUD, "VerifC15Grouping", {"params": {"CLOCKSTEP": 0}, "preempt": 0}, None, reach=["c15.group.done"],
+                  bounds="two compound kernel events (3 records each, symbolic distinct sequence numbers) in every interleaving of their records"),
+              run("read-errors", AUD, "VerifC15ReadErrors", {"params": {}, "preempt": 1}, {"params": {}, "preempt": 3}, reach=["c15.read.stopped"],
+                  bounds="Auditd.Read with one of: login without event, login with pid <= 0 (symbolic), login without credential, malformed audit line")],
+      ["go-libaudit's ParseLogLine and Reassembler are executed from their real source; aucoalesce.CoalesceMessages is NOT executable in the engine (its normalisation tables are built by package initialisers from embedded YAML through reflection), so the hand-over of reassembled events to the correlator inside ReassemblyComplete - and with it 'write error at the k-th event' and 'unparsable PID in a LOGIN record' arriving through the reassembler - is outside this check; the correlator's own error returns for those causes are exercised in C01/C14 harnesses' noerr obligations",
+       "'stops the processor' is decided as: Read returns (otherwise the harness deadlocks) with an error whose chain contains the cause",
+       "no time passes between clock readings inside one run (CLOCKSTEP=0): reassembly time-outs are outside the claim"],
+      ["errors produced inside ReassemblyComplete (needs aucoalesce)", "reassembly time-outs and more than 8 events in flight"], site_prefix="c15.",
       init_extra=["github.com/elastic/go-libaudit/v2/auparse", "github.com/elastic/go-libaudit/v2"])
